@@ -269,7 +269,7 @@ macro_rules! engine_spec {
 }
 
 pub fn all_ids() -> Vec<&'static str> {
-    vec!["C01", "C02", "C03", "C04", "C05", "C06", "C07", "C08", "C09", "C10", "C11", "C13", "C14", "C15", "C16", "C17", "C18"]
+    vec!["C01", "C02", "C03", "C04", "C05", "C06", "C07", "C08", "C09", "C10", "C11", "C13", "C14", "C15", "C16", "C17", "C18", "C19"]
 }
 
 pub fn spec(id: &str) -> Option<PropSpec> {
@@ -434,6 +434,21 @@ pub fn spec(id: &str) -> Option<PropSpec> {
             ],
             both_builds_quick: true,
             abort_is_violation: false,
+        },
+        "C19" => PropSpec {
+            id: "C19",
+            level: "exploration",
+            rule: "cases = (a) height grid: limit N in 1..=24 (thorough 1..=64) x graph height in N-2..N+2 x 4 graph shapes (chain, chain through a bind with a node created inside it, fold over chains, bind switching to a taller right-hand side at a later stabilise) x 4 ways of configuring the limit (new_with_height, lowered before use, raised before use, lowered while a smaller graph is in use) x split points, enumerated completely, plus random draws of the same parameters; (b) cycles through one or two binds and 1-3 other nodes closed at the first or a later stabilise; (c) bind returning a node of another state; (d) stabilise from a node function / from a handler; oracle = accepted iff height <= N (engine height convention calibrated at run time) with correct values, otherwise a panic naming the height at that stabilise; construction and admissible reconfigurations never panic; misuse panics ('cycl' for cycles); everything can be dropped afterwards; non-trivial = boundary pair (height N or N+1) with a reconfiguration, or any misuse case; distinct = distinct parameter tuple",
+            cases: [20_000, 400_000],
+            len: [6, 6],
+            run: crate::c19::run_c19,
+            exhaustive: Some(crate::c19::exhaustive_c19),
+            assumptions: &[
+                "heights are exercised on fresh states with monotone histories, where engine (sticky) heights and true graph heights coincide",
+                "a hang is reported as inconclusive (exit 2) by the watchdog, a stack overflow / abort of a worker as a violation",
+            ],
+            both_builds_quick: true,
+            abort_is_violation: true,
         },
         _ => return None,
     })
